@@ -269,6 +269,7 @@ NOT_YET = {}
 EXTENSIONS = {
     'X01': 'machine files: sections, constants, composition of several files, wiring into properties/options/binaries (specs/machinefile)',
     'X03': 'meson compile: target expression resolution and backend command construction (specs/mcompile)',
+    'X04': 'language objects: disabler absorption, feature options, configuration_data, environment objects, join_paths and fs string functions (specs/langobj)',
     'X05': 'Xcode backend: integrity of the generated project object graph and faithfulness to the build definition (specs/xcode)',
     'X06': 'pkg-config file generator: field contents, visibility, order constraints, uninstalled variant (specs/pkgconfig)',
     'X02': 'command-template substitution of custom_target/generator/configure_file and Makefile-style depfiles (specs/cmdsubst)',
